@@ -755,11 +755,13 @@ func checkResponse(c caseSpec, rm *requestModel, res *pluginResult) ([]finding, 
 						}
 					}
 					detail := fmt.Sprintf("kind=%s|form=%s", m.Kind, form)
-					if c.Kind == "names" {
-						// what matters is how the names of the method, its service, its package and their siblings relate
-						detail += "|" + nameRelations(s, m)
-					} else if strings.HasPrefix(form, "other") || form == "not-a-literal" || form == "separator-misplaced" {
-						detail += fmt.Sprintf("|pkg=%s|naming=%s", c.Pkg, c.Naming)
+					if strings.HasPrefix(form, "other") || form == "not-a-literal" || form == "separator-misplaced" {
+						if c.Kind == "names" {
+							// what matters is how the names of the method, its service, its package and their siblings relate
+							detail += "|" + nameRelations(s, m)
+						} else {
+							detail += fmt.Sprintf("|pkg=%s|naming=%s", c.Pkg, c.Naming)
+						}
 					}
 					what := fmt.Sprintf("stub of %s/%s calls the channel with %s, want %q", s.FullName, m.Name, exprString(pathArg), wantPath)
 					if c.Kind == "names" {
